@@ -253,7 +253,7 @@ def gen_facts(treehash, config):
             shutil.copy(os.path.join(REPO, 'Cargo.lock'), os.path.join(corpus, 'Cargo.lock'))
             if full:
                 # thorough tier: a module of pseudo-random definitions (seeded by VERIF_SEED) widens the set of generated programs
-                subprocess.run([sys.executable, os.path.join(corpus, 'gen_random.py'), str(seed), '60', os.path.join(corpus, 'src', 'random_defs.rs')], check=True)
+                subprocess.run([sys.executable, os.path.join(corpus, 'gen_random.py'), str(seed), '100', os.path.join(corpus, 'src', 'random_defs.rs')], check=True)
                 with open(os.path.join(corpus, 'src', 'lib.rs'), 'a') as f:
                     f.write('pub mod random_defs;\n')
             # `debug` makes the derive print leaves, reference automaton, graph and root while it expands (lib/autlib.py)
